@@ -161,37 +161,52 @@ CHECKS["C19"] = {
           "row (the prompt sites inside rename_operation are pinned by a theorem, not exercised); serde_json string escaping trusted.",
 }
 CHECKS["C01"] = {
-  "text": "Theorems for all patch texts, trees and plans in the explicit guard G01: rewriteHeaders changes exactly the two header "
-          "lines and preserves every body byte (any diff-like lines, CRLF, missing final newline); the undo rename sequence "
-          "returns every node of moveAll rs t to its original path for any nesting depth (built on C02ren.renamePhase_ok); under "
-          "the diff contract an edited file gets its original bytes and mode back; composed: undo(apply plan t) = t. Witnesses "
-          "show each guard clause is needed (unquoted header names, symlink-following exists() guard) and that the two repaired "
-          "algorithms (old header rewriting, deepest-first directory order) fail. The models of rewriteHeaders, diffy's "
-          "formatter/parser/apply, generate_reverse_patches and undo_renaming are run against the real apply_plan + undo_renaming "
-          "and real diffy output on every run; CLI rename/apply/replace -> undo (-> redo -> undo) is judged by exact snapshot "
-          "equality on diff-hostile trees.",
+  "text": "Theorems for all trees / plans / patch texts / path strings: replace_patch_headers changes only the two header "
+          "lines (any body bytes kept) and writes names diffy's parse_filename reads back unchanged for EVERY path (quotes, "
+          "backslashes, TAB, CR, LF); parsing the rewritten text gives the same patch with the two paths as names whenever "
+          "diffy parses its own output; the undo rename sequence (directories shallowest first, files, lstat guards, "
+          "adjustment loop) inverts the rename phase at any nesting depth, renamed symlinks included; content restoration "
+          "under the diff contract; undo(apply(plan, t)) = t literally (paths, bytes, modes, link targets) for every tree and "
+          "every plan the planner can emit, parametric in diffy's create_patch/apply. Kernel-evaluated witnesses about the "
+          "explicitly old-style functions for the four repaired defects. The Lean models of generate_reverse_patches, "
+          "undo_renaming, diffy's formatter/parser/apply and the header rewriting run against the real code on every run "
+          "(patch text, stored patch files and their header names, apply+undo on generated trees), and the CLI (rename / "
+          "plan+apply / replace, undo latest / id, undo-redo-undo, a non-root run) is checked with a whole-tree snapshot oracle "
+          "under umask 022.",
   "design_ref": "DESIGN.md section 4, C01",
-  "technique": "Lean 4 proof (text-level induction over patch lines; path algebra via C02ren; composition) + differential correspondence (applyundo, mkpatch) + CLI snapshot-equality oracle",
-  "note": TB + "diffy's Myers diff is a parameter with the contract apply(create_patch(a,b),a)=b (exercised on every generated pair); "
-          "parse(rewriteHeaders(fmt p)) is proved on kernel-evaluated instances only and enters undo_apply_id as the clause "
-          "Contract.parses (compared with the real parser on real diffy output each run); the read-only-file finding is oracle-only "
-          "(permission checks are not in the tree model; needs setpriv/root, otherwise counted and skipped).",
+  "technique": "Lean 4 proof (path algebra over the rename map, induction over the undo loops, tree extensionality, parser "
+               "lemmas for the quoted header) + differential correspondence (patch text, stored patches, apply+undo) + CLI "
+               "snapshot oracle",
+  "note": TB + "diffy: apply(create_patch(a,b),a)=b, apply ignores header names, create_patch uses the generic header and "
+          "from_str(to_string(p))=p are hypotheses (Contract), exercised on every generated pair and compared with the Lean "
+          "parser/formatter model; Myers diff itself is not modelled. The clause filesDistinct of G01 (keys of a BTreeMap are "
+          "distinct) is assumed, not proved. POSIX rename semantics per RModel.Model.Fs; no symlinked directories inside "
+          "planned paths; permissions of the invoking user (read-only directories) and temp-name collisions "
+          "(<stem>.<pid>.renamify.tmp) are outside the tree model; history/plan storage is C10/C17's subject.",
 }
 CHECKS["C07"] = {
-  "text": "Theorems over all word lists about the Lean transliteration of find_compound_variants / is_boundary / find_enhanced_matches: "
-          "an identifier = (nothing|_|__) + rendering of any word list in snake/kebab/SCREAMING_SNAKE/Train-Case/PascalCase that contains the "
-          "search words is rewritten to the same rendering with exactly the occurrences of the search words replaced (hence prefix words + "
-          "TERM + suffix words -> prefix words + REPLACEMENT + suffix words when the term occurs once); every match of the line matcher is a "
-          "boundary-checked variant hit or a compound answer on an identifier whose tokens contain the search tokens as a contiguous window; "
-          "identifiers whose word list lacks that window get no compound match and exact hits glued to a letter/digit are rejected. "
-          "Full-strength statement (any separator multiplicity) is refuted by kernel-evaluated witnesses, one per listed finding. The model is run "
-          "against the real functions on the exhaustive by-construction identifier family, the near-miss family, random and hostile inputs; an "
-          "independent by-construction oracle judges find_compound_variants, find_enhanced_matches, scan_repository+apply_plan and the CLI.",
+  "text": "Theorems over all word lists about the Lean transliteration of find_compound_variants (with the re-join guard "
+          "untouched_text_survives_rejoin of commit 70a22d6) / is_boundary / find_enhanced_matches: an identifier = (nothing|_|__) + "
+          "rendering of any word list in snake/kebab/SCREAMING_SNAKE/Train-Case/PascalCase that contains the search words is "
+          "rewritten to the same rendering with exactly the occurrences of the search words replaced (prefix words + TERM + suffix "
+          "words -> prefix words + REPLACEMENT + suffix words when the term occurs once); C07_full_holds: for snake identifiers with "
+          "ANY number of underscores between prefix words, term and suffix words every compound answer reproduces the text outside "
+          "the term byte for byte, because irregular multiplicities get no compound answer (snake_irregular_none) and are left to "
+          "the exact pass, whose hits are byte for byte a rendering of the term at the reported span (exact_hit_is_a_variant); every "
+          "compound answer passed the guard's token walk; every match of the line matcher is a boundary-checked variant hit or a "
+          "compound answer on an identifier whose tokens contain the search tokens as a contiguous window; identifiers whose word "
+          "list lacks that window get no compound match and exact hits glued to a letter/digit are rejected. The three defects "
+          "found on the pinned tree are kept as kernel-evaluated before-fix witnesses on the guard-less function and as positive "
+          "in-place theorems on the current one. The model is run against the real functions on the exhaustive by-construction "
+          "identifier family, the near-miss family, the corpus of repaired inputs, random and hostile inputs; an independent "
+          "by-construction oracle judges find_compound_variants, find_enhanced_matches, scan_repository+apply_plan and the CLI, and "
+          "names the repaired class if an old behaviour returns.",
   "design_ref": "DESIGN.md section 4, C07",
-  "technique": "Lean 4 proof (induction over token lists on top of the C18 tokenizer lemmas) + kernel-evaluated witnesses + differential correspondence + by-construction locality oracle (in-process and CLI)",
-  "note": TB + "camelCase locality and the Title/dot paths are covered by kernel-evaluated examples and the differential check only; identifier regex "
-          "modelled for ASCII content; the enhanced op uses the style rows of the variant table (plural / as-typed rows only end-to-end); "
-          "the rendering chosen for the replacement inside the term's span is C06's concern (recorded as local_other_rendering).",
+  "technique": "Lean 4 proof (induction over token lists and over the guard's token walk, on top of the C18 tokenizer lemmas) + kernel-evaluated witnesses + differential correspondence + by-construction locality oracle (in-process and CLI)",
+  "note": TB + "camelCase locality, kebab/train/dot multiplicities, the hump+underscore shapes and the Title/dot paths are covered by "
+          "kernel-evaluated examples and the differential check only; identifier regex modelled for ASCII content; the enhanced op "
+          "uses the style rows of the variant table (plural / as-typed rows only end-to-end); the rendering chosen for the "
+          "replacement inside the term's span is C06's concern (recorded as local_other_rendering).",
 }
 CHECKS["C10"] = {
   "text": "Theorems for every command list and every clock schedule over a Lean model of history.rs/undo.rs/id_resolver.rs and the "
@@ -252,4 +267,4 @@ CHECKS["C11"] = {
 }
 
 _W = "check built and passing before the latest repo fix commits; temporarily withdrawn while its Lean model is updated to the repaired code"
-PENDING.update({"C01": _W, "C07": _W, "C08": _W, "C12": _W})
+PENDING.update({"C08": _W, "C12": _W})
